@@ -106,6 +106,10 @@ def _drive_ipm(args):
                     m.pop(c, None)
             if j == 0:
                 m['DE55'] = isoc.ricc(r) + bytes([0x82, 3, 0x80, 0xfe, 0xff])      # ICC bytes >= 0x80
+                if cid % 4 == 1:
+                    m['PDS9999'] = ''                        # an empty value in the last sub-element
+                if cid % 4 == 2:
+                    m['DE55'] = b''.join(b'\x9f\x10' + bytes([30]) + bytes(range(i, i + 30)) for i in range(0, 200, 10))   # 660 bytes
                 if cid % 3 == 0:
                     m['DE55'] = bytes([0x9f, 0x26, 2, 1, 0x80]) + b'\x00\x00\x00' + bytes([0x82, 1, 0xff])    # low-values filler
                 m.pop('DE48', None)
